@@ -38,6 +38,13 @@ def build(tier, seed):
                         continue
                 qs.append(rc.rq("iter_%s_v%d_p%d_c%d_x%d" % (tag, ver, pfx, comp, verify), "h_drain", s, kind=0, verify=verify,
                                 witness=(ver == 2 and pfx == 0 and comp == 0 and verify == 0), timeout=900))
+    # v1 / v2 files whose index payload exceeds 127 bytes (a fixed32 length must not be read as a varint)
+    nblk = 14
+    big = enc([1] * nblk, [0] * nblk, [1] * nblk, sepl=[6] * nblk, irst=[1] + [0] * (nblk - 1))
+    for ver in (1, 2):
+        q = rc.rq("iter_bigindex_v%d" % ver, "h_drain", dict(big, ver=ver), kind=0, witness=False, timeout=1500)
+        q.flags = ["--max-field-sensitivity-array-size", "2048"]
+        qs.append(q)
     # all restart-flag subsets of a 3-entry block (first always set), with maximal sharing where not a restart
     for bits in itertools.product((0, 1), repeat=2):
         rsts = [1] + list(bits)
@@ -51,8 +58,8 @@ def build(tier, seed):
         ("wsh", enc([2, 2, 2, 2], [1, 1, 1, 1], [2, 2], rsts=[1, 0, 1, 0], shs=[0, 1, 0, 2], sepl=[2, 2], irst=[1, 0], ver=2, no_trailer=True)),
     ]
     for tag, spec in wb:
-        for k in ((1, 3) if quick else (1, 2, 3)):
-            qs.append(rc.rq("look_%s_%s" % (tag, KN[k]), "h_history", spec, ops="nn", kind=k, ql=2, ql2=2, witness=False))
+        for k in (1, 2, 3):
+            qs.append(rc.rq("look_%s_%s" % (tag, KN[k]), "h_history", spec, ops="nn", kind=k, ql=(1 if k == 2 else 2), ql2=2, witness=False))
         qs.append(rc.rq("seek_%s" % tag, "h_history", spec, ops="sn" if quick else "snn", kind=0, t0l=2, witness=False))
         if not quick:
             qs.append(rc.rq("seek1_%s" % tag, "h_history", spec, ops="sn", kind=0, t0l=1, witness=False))
